@@ -1,10 +1,11 @@
-(* CommandsReject: C04, the rejecting half for start, stop and switch — what the abstract model rejects, the command
-   refuses with the same error class, and (by the definition of [exec]) the file stays as it was. *)
+(* CommandsReject: C04, the rejecting half for track, start, stop, switch and create — what the abstract model rejects,
+   the command refuses with the same error class, and (by the definition of [exec]) the file stays as it was.
+   (`pause`, which writes several times, is in Proofs/CommandsPauseReject.v.) *)
 From Klog Require Import Base.Prelude Base.Utf8 Model.Calendar Model.Values Model.Record Model.Lines Model.Parser
   Model.Tags Model.Serialiser Model.Reconcile Model.Commands Proofs.Lines Proofs.Parser Proofs.TagsUtf8 Proofs.Calendar
   Proofs.Values Spec.Spec Proofs.SpecValues Proofs.SpecEntry Proofs.SpecRecord Proofs.SpecDoc Proofs.Print
   Proofs.Style Proofs.Reconcile Proofs.Commands Proofs.Rounding Proofs.CommandsSpec Proofs.CommandsRefine Proofs.CommandsStop
-  Proofs.CommandsPause Proofs.CommandsHistory.
+  Proofs.CommandsPause Proofs.CommandsArgs Proofs.CommandsHistory Proofs.CommandsTrackReject.
 From Coq Require Import ZifyBool.
 Open Scope Z_scope.
 
@@ -168,7 +169,7 @@ Proof.
     destruct (a_close_in k t fmt [] rs) as [rs1|] eqn:Hc.
     + destruct (close_at_record_state file lead gs recs (dt d) k rg t fmt [] rs1 C Hsafe Hf Hrg Hvt ltac:(split; [exact I|reflexivity]) (Hnb rg (nth_error_In _ _ Hrg)) Hc)
         as (rc & rc' & g & g' & r1 & Hrc & Hg & F & Hclose & C' & S' & Hden & Hst' & Hlast' & Hind1 & Hne1 & Hne & Hadd0).
-      destruct (Hadd0 eq_refl) as (_ & _ & _ & Hsums). cbn [map] in Hclose.
+      destruct (Hadd0 eq_refl) as (_ & _ & _ & Hsums & _). cbn [map] in Hclose.
       assert (Hk : (k < length recs)%nat) by (apply nth_error_Some; congruence).
       assert (Hn1 : nth_error rs1 k = Some (denote_record r1)).
       { rewrite <- Hden, denote_recs_set_nth, nth_error_set_nth by (unfold denote_recs; rewrite map_length; exact Hk). rewrite Nat.eqb_refl. reflexivity. }
@@ -185,10 +186,10 @@ Proof.
   - injection Ha as <-. unfold first_creator, at_record. rewrite (find_record_idx_none_at _ _ _ Hf). reflexivity.
 Qed.
 
-(* ---------------------------------------------------------------- start, stop, switch: what the model rejects fails *)
+(* ---------------------------------------------------------------- every command but pause: what the model rejects fails *)
 
 Definition rejecting (sc : scommand) : bool :=
-  match sc with SStart _ _ | SStop _ _ | SSwitch _ _ => true | _ => false end.
+  match sc with SPause _ _ _ _ => false | _ => true end.
 
 Theorem exec_rejects now cfg sc file recs e : rejecting sc = true ->
   spec_state file recs -> step_pre now cfg sc recs ->
@@ -196,24 +197,37 @@ Theorem exec_rejects now cfg sc file recs e : rejecting sc = true ->
   exec now cfg (to_command sc) file = (file, CErr e).
 Proof.
   intros Hr S Hpre Ha. destruct sc as [ds se|a s|a add_r|a s|ds should srunes|sr no_tags extend ticks]; try discriminate Hr;
-    cbn [a_exec to_command step_pre] in *; apply exec_of_simple_err; try reflexivity.
-  - destruct Hpre as (Hv & Hsh & Hvt & Hsum).
+    cbn [a_exec to_command step_pre] in *.
+  - (* track: the only rejection is a second open range, caught by the safeguard re-parse *)
+    destruct Hpre as (Hv & Hsh & We & Hcr).
+    destruct (at_date now ds) as [d| |] eqn:Hd; cbn [of_outcome cbind] in Ha; [|discriminate|discriminate].
+    unfold a_track in Ha.
+    assert (Hex : is_open (denote_entry se) = true /\ existsb is_open (entries_before (dt d) (denote_recs recs)) = true /\ e = CEInvalidResult).
+    { unfold entries_before. destruct (find_record_idx (dt d) (denote_recs recs) 0) as [i|]; [|discriminate Ha].
+      destruct (nth_error (denote_recs recs) i) as [r|]; [|discriminate Ha].
+      destruct (is_open (denote_entry se)); [|discriminate Ha]. destruct (existsb is_open (rec_entries r)); [|discriminate Ha].
+      injection Ha as <-. auto. }
+    destruct Hex as (Ho & Hex & ->).
+    exact (track_second_open_rejects now cfg ds file recs d se S Hd (at_date_valid now _ d Hv Hd) Hsh We Hcr Ho Hex).
+  - apply exec_of_simple_err; [reflexivity|]. destruct Hpre as (Hv & Hsh & Hvt & Hsa & Hncr).
     destruct (at_date now (a_date a)) as [d| |] eqn:Hd; cbn [of_outcome cbind] in Ha; [|discriminate|discriminate].
     destruct (at_time now cfg a) as [t|e'|] eqn:Ht; cbn [cbind] in Ha; [| |discriminate].
-    + exact (start_rejects now cfg a s file recs d t e S Hd Ht (Hv d eq_refl) Hsh Ha).
+    + exact (start_rejects now cfg a s file recs d t e S Hd Ht (at_date_valid now _ d Hv Hd) Hsh Ha).
     + injection Ha as <-. unfold exec_simple. rewrite Hd. cbn [of_outcome cbind]. rewrite Ht. reflexivity.
-  - destruct Hpre as (Hv & Hvt & Hadd & Hnb).
+  - apply exec_of_simple_err; [reflexivity|]. destruct Hpre as (Hv & Hvt & Hadd & Hnb).
     destruct (at_date now (a_date a)) as [d| |] eqn:Hd; cbn [of_outcome cbind] in Ha; [|discriminate|discriminate].
     destruct (at_time now cfg a) as [t|e'|] eqn:Ht; cbn [cbind] in Ha; [| |discriminate].
     + destruct (plus_days (dt d) (-1)) as [y| |] eqn:Hy; cbn [of_outcome cbind] in Ha; [|discriminate|discriminate].
-      apply (stop_rejects now cfg a (option_map (map utf8_encode) add_r) file recs d t y e S Hd Ht Hy (Hv d eq_refl)).
+      apply (stop_rejects now cfg a (option_map (map utf8_encode) add_r) file recs d t y e S Hd Ht Hy (at_date_valid now _ d Hv Hd)).
       destruct add_r; exact Ha.
     + injection Ha as <-. unfold exec_simple. rewrite Hd. cbn [of_outcome cbind]. rewrite Ht. reflexivity.
-  - destruct Hpre as (Hvt & Hnb & Hsum).
+  - apply exec_of_simple_err; [reflexivity|]. destruct Hpre as (Hvt & Hnb & Hsa & Hncr).
     destruct (at_date now (a_date a)) as [d| |] eqn:Hd; cbn [of_outcome cbind] in Ha; [|discriminate|discriminate].
     destruct (at_time now cfg a) as [t|e'|] eqn:Ht; cbn [cbind] in Ha; [| |discriminate].
-    + exact (switch_rejects now cfg a s file recs d t e S Hd Ht (Hvt t eq_refl) Hnb Ha).
+    + exact (switch_rejects now cfg a s file recs d t e S Hd Ht (at_time_valid now cfg a t Hvt Ht) Hnb Ha).
     + injection Ha as <-. unfold exec_simple. rewrite Hd. cbn [of_outcome cbind]. rewrite Ht. reflexivity.
+  - (* create: the model never rejects *)
+    destruct (at_date now ds) as [d| |]; cbn [of_outcome cbind] in Ha; discriminate Ha.
 Qed.
 
 (* ---------------------------------------------------------------- why the guards of C04 are there: two witnesses *)
